@@ -1452,6 +1452,27 @@ lyd_diff_apply_all(struct lyd_node **data, const struct lyd_node *diff)
 }
 
 /**
+ * @brief Update the default flag of a term diff node and of its parent NP containers accordingly.
+ *
+ * @param[in] node Term diff node to update.
+ * @param[in] dflt_flag New default flag (::LYD_DEFAULT or 0).
+ */
+static void
+lyd_diff_merge_dflt_flag(struct lyd_node *node, uint32_t dflt_flag)
+{
+    node->flags &= ~LYD_DEFAULT;
+    node->flags |= dflt_flag & LYD_DEFAULT;
+
+    if (node->flags & LYD_DEFAULT) {
+        /* parent NP containers may have become default */
+        lyd_np_cont_dflt_set(lyd_parent(node));
+    } else {
+        /* parent NP containers are no longer default */
+        lyd_np_cont_dflt_del(lyd_parent(node));
+    }
+}
+
+/**
  * @brief Update operations on a diff node when the new operation is NONE.
  *
  * @param[in] diff_match Node from the diff.
@@ -1468,8 +1489,7 @@ lyd_diff_merge_none(struct lyd_node *diff_match, enum lyd_diff_op cur_op, const 
     case LYD_DIFF_OP_REPLACE:
         if (src_diff->schema->nodetype & LYD_NODE_TERM) {
             /* NONE on a term means only its dflt flag was changed */
-            diff_match->flags &= ~LYD_DEFAULT;
-            diff_match->flags |= src_diff->flags & LYD_DEFAULT;
+            lyd_diff_merge_dflt_flag(diff_match, src_diff->flags);
         }
         break;
     default:
@@ -1571,8 +1591,7 @@ lyd_diff_merge_replace(struct lyd_node *diff_match, enum lyd_diff_op cur_op, con
             }
 
             /* modify the default flag */
-            diff_match->flags &= ~LYD_DEFAULT;
-            diff_match->flags |= src_diff->flags & LYD_DEFAULT;
+            lyd_diff_merge_dflt_flag(diff_match, src_diff->flags);
             break;
         case LYS_ANYXML:
         case LYS_ANYDATA:
